@@ -21,8 +21,11 @@ ASSUMPTIONS = [
 ]
 
 
-def strategy(ctx):
-    return em.st_program(max_points=6, max_edits=ctx.pick(30, 60), samplers=True, forks=False)
+STRATIFIED = True
+
+
+def strategy(ctx, shard=0):
+    return em.st_program(max_points=6, max_edits=ctx.pick(30, 60), samplers=True, forks=False, sampler_heavy=(shard % 4 == 3))
 
 
 def budget(ctx):
